@@ -130,6 +130,12 @@ func (j *joiner) readAtOffset(b, data []byte, cur, subTrieSize, off, bufferOffse
 		return
 	}
 
+	// an intermediate chunk must consist of whole references
+	if len(data) == 0 || len(data)%j.refLength != 0 {
+		eg.Go(func() error { return ErrMalformedTrie })
+		return
+	}
+
 	for cursor := 0; cursor < len(data); cursor += j.refLength {
 		if bytesToRead == 0 {
 			break
@@ -266,6 +272,11 @@ func (j *joiner) processChunkAddresses(ctx context.Context, fn boson.AddressIter
 	case <-ctx.Done():
 		return ctx.Err()
 	default:
+	}
+
+	// an intermediate chunk must consist of whole references
+	if len(data) == 0 || len(data)%j.refLength != 0 {
+		return ErrMalformedTrie
 	}
 
 	eg, ectx := errgroup.WithContext(ctx)
